@@ -533,6 +533,20 @@ def mk_sub(base, idx):
         for k, v in base[1]:
             if k == idx:
                 return v
+    if tg in ('dict', 'tuple', 'list') and ((tag(idx) == 'call' and idx[1] == ('g', 'builtins.bool') and len(idx[2]) == 1
+                                            and not idx[3]) or tag(idx) in ('cmp', 'and', 'or', 'not')):
+        # TABLE[bool(x)] / TABLE[a < b]: the entry for True when the condition holds, else the entry for False
+        cond = idx[2][0] if tag(idx) == 'call' else idx
+        def entry(flag):
+            if tg == 'dict':
+                for k, v in base[1]:
+                    if is_const(k) and k[1] == flag and isinstance(k[1], (bool, int)):
+                        return v
+                return None
+            return base[1][int(flag)] if len(base[1]) == 2 else None
+        yes, no = entry(True), entry(False)
+        if yes is not None and no is not None:
+            return mk_phi([(cond, yes), (mk_not(cond), no)])
     if is_const(idx) and isinstance(idx[1], str):
         if tg == 'rows' and not _is_multi(base[3]):
             return ('cell', base[1], (base[2], base[3]), idx[1])
